@@ -30,14 +30,17 @@ def Fault.readsBody : Fault → Bool
   | .headClose => false
   | _ => true
 
-/-- `bodySent`: the client supplied body bytes (b<k>, c<k>); `hasBody`: a body_pipe exists (also w<k>) -/
-def faultEvents (hasBody bodySent : Bool) (f : Fault) : List Ev :=
+/-- `bodySent`: the client supplied body bytes (b<k>, c<k>); `hasBody`: a body_pipe exists (also w<k>);
+`headReq`: the request method is HEAD (the reply has no body: it is complete after its head) -/
+def faultEvents (hasBody bodySent headReq : Bool) (f : Fault) : List Ev :=
   let pre := if bodySent && f.readsBody then [Ev.bodyConsumed] else []
   pre ++ match f with
   | .ok => [.replyHeaders 200, .serverComplete (!hasBody || bodySent)]
   | .status s => [.replyHeaders s, .serverComplete (!hasBody || bodySent)]
   | .partBody s false => [.replyHeaders s, .serverComplete false]      -- premature EOF: markPrematureReplyBodyEofFailure; serverComplete
-  | .partBody s true => [.replyHeaders s, .serverFailed .other false]  -- readReply: ERR_READ_ERROR
+  | .partBody s true =>
+    if headReq then [.replyHeaders s, .serverComplete false]           -- header-only reply: complete before the reset
+    else [.replyHeaders s, .serverFailed .other false]                 -- readReply: ERR_READ_ERROR
   | .fullClose => [.serverFailed .zero false]                           -- ERR_ZERO_SIZE_OBJECT
   | .fullReset => [.serverFailed .other false]
   | .peekClose => [.serverFailed .other false]
@@ -61,21 +64,21 @@ def alive (d : Nat) : Bool := decide (1 ≤ d ∧ d ≤ 3)
 /-- closed loop, as the list of events the environment produces: every `connect d` is answered by `connectDone (alive d)`,
 every queued `noteConnection` fires with the socket open, every dispatch meets the next fault (then `ok`);
 `fuel` bounds the number of stimuli -/
-def simTrace (c : Cfg) (r : Req) (bodySent : Bool) : Nat → St → List Fault → List Ev
+def simTrace (c : Cfg) (r : Req) (bodySent headReq : Bool) : Nat → St → List Fault → List Ev
   | 0, _, _ => []
   | fuel + 1, s, faults =>
     match s.phase with
     | .opening (some d) =>
-      Ev.connectDone (alive d) :: simTrace c r bodySent fuel (step c r s (.connectDone (alive d))).1 faults
+      Ev.connectDone (alive d) :: simTrace c r bodySent headReq fuel (step c r s (.connectDone (alive d))).1 faults
     | .answering _ _ =>
-      Ev.noteConnection true :: simTrace c r bodySent fuel (step c r s (.noteConnection true)).1 faults
+      Ev.noteConnection true :: simTrace c r bodySent headReq fuel (step c r s (.noteConnection true)).1 faults
     | .sent _ _ =>
-      faultEvents r.hasBody bodySent (faults.headD .ok) ++
-        simTrace c r bodySent fuel (run c r s (faultEvents r.hasBody bodySent (faults.headD .ok))).1 faults.tail
+      faultEvents r.hasBody bodySent headReq (faults.headD .ok) ++
+        simTrace c r bodySent headReq fuel (run c r s (faultEvents r.hasBody bodySent headReq (faults.headD .ok))).1 faults.tail
     | _ => []
 
-def sim (c : Cfg) (r : Req) (bodySent : Bool) (fuel : Nat) (s : St) (faults : List Fault) (acc : List Out) : St × List Out :=
-  feed c r s (simTrace c r bodySent fuel s faults) acc
+def sim (c : Cfg) (r : Req) (bodySent headReq : Bool) (fuel : Nat) (s : St) (faults : List Fault) (acc : List Out) : St × List Out :=
+  feed c r s (simTrace c r bodySent headReq fuel s faults) acc
 
 /-- the status line the client receives (FwdState::completed, errorAppendEntry) -/
 def finalStatus (s : St) : Nat :=
@@ -89,9 +92,9 @@ def finalStatus (s : St) : Nat :=
   | _ => 502
 
 /-- a whole scenario: peer selection delivers all A records, then the end of destinations -/
-def scenario (c : Cfg) (r : Req) (bodySent : Bool) (addrs : List Nat) (prime : Bool) (faults : List Fault) : St × List Out :=
+def scenario (c : Cfg) (r : Req) (bodySent headReq : Bool) (addrs : List Nat) (prime : Bool) (faults : List Fault) : St × List Out :=
   let pool := if prime then (addrs.filter alive).take 1 else []
   let (s0, o0) := feed c r (init pool) (addrs.map Ev.noteDestination ++ [Ev.noteDestinationsEnd]) []
-  sim c r bodySent (4 * (addrs.length + faults.length) + 8) s0 faults o0
+  sim c r bodySent headReq (4 * (addrs.length + faults.length) + 8) s0 faults o0
 
 end SquidModel.Fwd.Retry
